@@ -320,6 +320,57 @@ def heal_suffix(rounds):
     return s
 
 
+def gen_gap_replay_case(r, cfg, rel=False, heal=False):
+    """GAP duplication and late redelivery of old traffic: a late joiner on a writer with holes in its history (removed
+    changes -> GAP for TRANSIENT_LOCAL, everything before the match -> GAP for VOLATILE) gets DATA and GAP datagrams; a
+    random subset (often all) of the in-flight datagrams is duplicated, some originals are dropped or delivered out of
+    order, then everything is delivered, the late copies last. A GAP that is applied a second time must not rewind the
+    writer proxy: the old DATA copies behind it must be refused."""
+    tl = r.chance(3, 4)
+    f = r.choice([8, 8, 16, 100])
+    lines = [cfg_line(cfg), f"init {'rel' if rel else 'be'} {'tl' if tl else 'vol'} {f}"]
+    n0 = r.range(3, 7)
+    for _ in range(n0):
+        lines.append(f"write {gen_payload(r, f, small=True) if r.chance(1, 4) else 'x%02x' % r.below(256)}")
+    holes = sorted(set(r.range(1 if r.chance(1, 3) else 2, n0 - 1) for _ in range(r.range(1, 2))))
+    for h in holes:
+        lines.append(f"remove {h}")
+    late = r.chance(3, 4)
+    if not late:
+        lines.insert(2, "match")
+    else:
+        lines.append("match")
+    nlater = r.range(1, 3)
+    for _ in range(nlater):
+        lines.append(f"write x{r.below(256):02x}")
+    lines.append("tick 1")
+    if r.chance(1, 3):                          # a second hole after the match: GAP in the middle of live traffic
+        lines += [f"write x{r.below(256):02x}", f"write x{r.below(256):02x}", f"remove {n0 + nlater + 1}" if False else "tick 1"]
+    k = n0 + nlater + 3
+    mode = r.below(3)
+    if mode == 0:                               # duplicate everything, deliver originals then copies
+        for i in range(k + 2):
+            lines.append(f"dup {i}")
+        lines.append("flush")
+    elif mode == 1:                             # duplicate a few, drop / reorder some originals
+        for _ in range(r.range(2, 6)):
+            lines.append(f"dup {r.below(k)}")
+        for _ in range(r.range(0, 3)):
+            lines.append(f"{r.choice(['drop', 'deliver'])} {r.below(k)}")
+        lines.append("flush")
+    else:                                       # copies first in reverse-ish order, then the rest
+        for i in range(k):
+            lines.append(f"dup {i}")
+        for _ in range(r.range(2, 8)):
+            lines.append(f"deliver {k + r.below(k)}")
+        lines.append("flush")
+    if r.chance(1, 2):
+        lines += [f"write x{r.below(256):02x}", "flush"]
+    if heal:
+        lines += heal_suffix(6)
+    return Case(lines, {"rel": rel, "tl": tl, "f": f, "heal": heal, "kind": "gap-replay"})
+
+
 def gen_system_case(r, cfg, rel=None, heal=False, max_dir=40, fs=None, rematch=False, removals=True):
     rel = r.chance(1, 2) if rel is None else rel
     tl = r.chance(1, 2)
